@@ -53,7 +53,7 @@ fn follow_up(world: &mut World, n: i64, base_t: i64) -> Result<(), String> {
     for i in 0..n {
         let t = base_t + i * 2;
         let b = nk - 1 - (i % 2);
-        let k = (i * 3 + 1) % nk;
+        let k = (i * 3 + 1) % (nk - 2);
         let steps = [
             json!({"a":"begin","t":t,"w":true}),
             json!({"a":"op","t":t,"c":"gocb","p":[],"k":b,"v":0,"lk":"U","lo":0,"hk":"U","hi":0}),
@@ -84,7 +84,9 @@ fn follow_up(world: &mut World, n: i64, base_t: i64) -> Result<(), String> {
 pub fn fault_run(a: &Args) -> i32 {
     let hist: Value = serde_json::from_str(&std::fs::read_to_string(a.s("hist", "")).unwrap()).unwrap();
     let steps: Vec<Value> = hist["steps"].as_array().unwrap().clone();
-    let prof = Profile::new(&a.s("profile", "two"), a.n("nkeys", 12) as usize, a.n("nvals", 4) as usize);
+    // two key ids beyond the history's universe: the follow-up transactions use them as names of buckets of their own
+    // (inside the history's universe such a name can be a pair or a nested bucket, and a refused put is not a fault)
+    let prof = Profile::new(&a.s("profile", "two"), a.n("nkeys", 12) as usize + 2, a.n("nvals", 4) as usize);
     let out = a.s("out", "/dev/stdout");
     let tout = a.s("trace-out", "");
     let dir = crate::scratch_dir();
